@@ -16,6 +16,10 @@ def monitor(case, line):
     mode, stage, seen, polled = None, -1, {}, False
     stop_req, alive_at_start, stop_before = False, False, False
     for k, tok in enumerate(toks):
+        if tok.startswith("!range:"):
+            return "epoll_pwait called with timeout %s, outside [-1, INT_MAX]" % tok[8:].split(":")[0]
+        if tok == "!spin":
+            return "the loop polled more than 4000 times in one case without reaching the callback cap (spinning)"
         if tok[0] == "x":
             stop_req = True
         elif tok[0] == "g":
@@ -74,7 +78,7 @@ def main():
     n = 200000 if chk.tier == "thorough" else 2500
     corpus_f = os.path.join(vf.VERIF, "corpus", "C03", "cases.txt")
     corpus = [l.rstrip("\n") for l in open(corpus_f)] if os.path.exists(corpus_f) else []
-    cases = corpus + [lc.gen_case(chk.rng, "mixed" if k % 3 else "timers") for k in range(n)]
+    cases = corpus + [lc.gen_case(chk.rng, ("huge" if k % 12 == 5 else "mixed") if k % 3 else "timers") for k in range(n)]
     a, b = lc.run_both(h, m, cases)
     vf.diff_cases(chk, "uv_run = Model/LoopCore.v", cases, a, b, monitor)
     chk.sample({"case": cases[len(corpus)], "impl": a[len(corpus)] if len(a) > len(corpus) else None})
